@@ -663,7 +663,7 @@ pub fn run(tier: Tier, seed: u64) -> i32 {
   rep.floor("dependencies_compared", tier.pick(1000, 20000));
   rep.floor("determinism_repeats_identical", tier.pick(500, 10000));
   rep.min_nontrivial = tier.pick(200, 5000);
-  let n = tier.pick(600, 20_000);
+  let n = tier.pick(1800, 60000);
   let mut acc = par_run(n, |i, acc| history_case(i, seed, acc));
   corpus_cases(&mut acc);
   rep.finish(acc)
